@@ -25,6 +25,9 @@ Proof.
     intros x [<-|Hx]; [|auto]. rewrite Forall_forall in F. apply F. apply in_or_app. right. left. reflexivity.
 Qed.
 
+Lemma SS_suffix' {A} (R : A -> A -> Prop) l1 l2 : StronglySorted R (l1 ++ l2) -> StronglySorted R l2.
+Proof. induction l1; cbn; [auto|]. intros H. inversion H; subst. auto. Qed.
+
 Definition cnt {A} (f : A -> bool) (l : list A) : nat := length (filter f l).
 Lemma cnt_app {A} (f : A -> bool) l1 l2 : cnt f (l1 ++ l2) = (cnt f l1 + cnt f l2)%nat.
 Proof. unfold cnt. rewrite filter_app, app_length. reflexivity. Qed.
@@ -44,6 +47,18 @@ Lemma cnt_in_pos {A} (f : A -> bool) l x : In x l -> f x = true -> (0 < cnt f l)
 Proof.
   intros Hin Hf. unfold cnt. assert (In x (filter f l)) by (apply filter_In; auto).
   destruct (filter f l); [destruct H|cbn; lia].
+Qed.
+Lemma filter_true {A} (f : A -> bool) l : (forall x, In x l -> f x = true) -> filter f l = l.
+Proof.
+  induction l as [|a l IH]; intros H; [reflexivity|]. cbn. rewrite (H a ltac:(left; reflexivity)). f_equal. apply IH. intros; apply H; right; assumption.
+Qed.
+Lemma filter_false {A} (f : A -> bool) l : (forall x, In x l -> f x = false) -> filter f l = [].
+Proof.
+  induction l as [|a l IH]; intros H; [reflexivity|]. cbn. rewrite (H a ltac:(left; reflexivity)). apply IH. intros; apply H; right; assumption.
+Qed.
+Lemma filter_filter {A} (f g : A -> bool) l : filter g (filter f l) = filter (fun a => f a && g a) l.
+Proof.
+  induction l as [|a l IH]; [reflexivity|]. cbn. destruct (f a); cbn; [destruct (g a); cbn; rewrite IH; reflexivity|exact IH].
 Qed.
 Lemma cnt_cons {A} (f : A -> bool) a l : cnt f (a :: l) = ((if f a then 1 else 0) + cnt f l)%nat.
 Proof. unfold cnt. cbn. destruct (f a); reflexivity. Qed.
@@ -470,5 +485,112 @@ Section Build.
         * rewrite pushes_app. cbn [pushes flat_map]. destruct (Z.leb_spec 0 (d_label d)); [lia|]. cbn [app]. rewrite app_nil_r. apply I.
         * intros q. rewrite cnt_app, (inv_cnt _ _ _ _ _ I q). rewrite (cnt_cons (is_pop q) d []). change (cnt (is_pop q) []) with 0%nat.
           assert (Hnp : is_pop q d = false) by (unfold is_pop; lia). rewrite Hnp. lia.
+  Qed.
+
+  (** ** Emission: at the end of the group of position p the stack is exactly the pairs open at p *)
+  Definition open_at (p : Z) : list pair := filter (fun a => (p_open a <=? p) && (p <? p_close a)) adds.
+
+  Lemma emission P R tree contents stk Popped p : D = P ++ R -> INV P tree contents stk Popped ->
+    (forall x, In x P -> d_start x <= p) -> (forall y, In y R -> p < d_start y) ->
+    Permutation (pairs_of tree stk) (open_at p).
+  Proof.
+    intros E I HP HR. unfold open_at. rewrite <- filter_filter.
+    set (f := fun a : pair => p_open a <=? p). set (g := fun a : pair => p <? p_close a).
+    assert (F1 : Permutation (filter f adds) (pushes P)).
+    { eapply Permutation_trans; [apply Permutation_filter; apply (pushes_split P R E)|].
+      rewrite filter_app, (filter_true f (pushes P)), (filter_false f (pushes R)), app_nil_r; [apply Permutation_refl| |].
+      - intros a Ha. apply in_pushes in Ha. destruct Ha as (y & Hy & Hl & ->).
+        assert (HyD : In y D) by (rewrite E; apply in_or_app; right; exact Hy).
+        destruct (push_delta_facts y HyD Hl) as (_ & Hst & _). specialize (HR y Hy). unfold f. lia.
+      - intros a Ha. apply in_pushes in Ha. destruct Ha as (y & Hy & Hl & ->).
+        assert (HyD : In y D) by (rewrite E; apply in_or_app; left; exact Hy).
+        destruct (push_delta_facts y HyD Hl) as (_ & Hst & _). specialize (HP y Hy). unfold f. lia. }
+    assert (F2 : filter g (pairs_of tree stk) = pairs_of tree stk).
+    { apply filter_true. intros a Ha. unfold g. destruct (Z.ltb_spec p (p_close a)) as [|Hle]; [reflexivity|exfalso].
+      refine (no_closed P R _ _ _ _ (p_close a) E I _ a Ha eq_refl).
+      apply cnt_zero. intros y Hy. unfold is_pop. specialize (HR y Hy). lia. }
+    assert (F3 : filter g Popped = []).
+    { apply filter_false. intros a Ha. unfold g.
+      pose proof (cnt_in_pos (closes_at (p_close a)) Popped a Ha ltac:(unfold closes_at; lia)) as Hc.
+      rewrite (inv_cnt _ _ _ _ _ I) in Hc. destruct (cnt_pos_ex _ _ Hc) as (y & Hy & Hpop).
+      specialize (HP y Hy). unfold is_pop in Hpop. lia. }
+    rewrite <- F2. eapply Permutation_trans; [|apply Permutation_filter; apply Permutation_sym; exact F1].
+    eapply Permutation_trans; [|apply Permutation_filter; apply Permutation_sym; apply (inv_perm _ _ _ _ _ I)].
+    rewrite filter_app, F3, app_nil_r. apply Permutation_refl.
+  Qed.
+
+  (** ** The whole walk *)
+  Definition chain_mono (tf : list node) (rs : list rnode) : Prop :=
+    forall rs1 rn rs2, rs = rs1 ++ rn :: rs2 -> forall rn', In rn' rs2 ->
+    forall s s', is_chain tf (snd rn) s -> is_chain tf (snd rn') s' -> forall i, In i s' -> i <= snd rn -> In i s.
+
+  Definition range_ok (tf : list node) (tree : list node) (stk : list Z) (rn : rnode) : Prop :=
+    exists stk', is_chain tf (snd rn) stk' /\ StronglySorted nested_pair (pairs_of tf stk') /\
+                 Permutation (pairs_of tf stk') (open_at (fst rn)) /\
+                 (forall i, In i stk' -> i < nlen tree -> In i stk).
+
+  Lemma build_walk_cons d rest tree contents :
+    build_walk (d :: rest) tree contents =
+    let tree' := fst (apply_delta d tree contents) in
+    let contents' := snd (apply_delta d tree contents) in
+    if match rest with d2 :: _ => d_start d2 =? d_start d | [] => false end
+    then build_walk rest tree' contents'
+    else (fst (build_walk rest tree' contents'), (d_start d, contents') :: snd (build_walk rest tree' contents')).
+  Proof.
+    cbn [build_walk]. destruct (apply_delta d tree contents) as [tree' contents']. cbn [fst snd].
+    destruct rest as [|d2 rest']; [reflexivity|]. destruct (d_start d2 =? d_start d); [reflexivity|].
+    destruct (build_walk (d2 :: rest') tree' contents'); reflexivity.
+  Qed.
+
+  Lemma walk_ok : forall R P tree contents stk Popped, D = P ++ R -> INV P tree contents stk Popped ->
+    exists ext, fst (build_walk R tree contents) = tree ++ ext /\ tree_wf (tree ++ ext) /\
+      Forall (range_ok (tree ++ ext) tree stk) (snd (build_walk R tree contents)) /\
+      chain_mono (tree ++ ext) (snd (build_walk R tree contents)).
+  Proof.
+    induction R as [|d rest IH]; intros P tree contents stk Popped E I.
+    - exists []. cbn. rewrite app_nil_r. split; [reflexivity|]. split; [apply I|]. split; [constructor|].
+      intros rs1 rn rs2 E'. destruct rs1; discriminate.
+    - destruct (step_inv P d rest tree contents stk Popped E I) as (stk' & Popped' & ext1 & I' & Et & Hdead).
+      rewrite build_walk_cons. cbv zeta.
+      set (tree' := fst (apply_delta d tree contents)) in *. set (contents' := snd (apply_delta d tree contents)) in *.
+      assert (E' : D = (P ++ [d]) ++ rest) by (rewrite <- app_assoc; exact E).
+      destruct (IH (P ++ [d]) tree' contents' stk' Popped' E' I') as (ext2 & Ef & Wf & Fr & Cm).
+      exists (ext1 ++ ext2). rewrite app_assoc, <- Et.
+      destruct (is_chain_bound _ _ _ (inv_chain _ _ _ _ _ I')) as [Hcb' Hsb'].
+      assert (Hlen : nlen tree <= nlen tree') by (rewrite Et, nlen_app; unfold nlen; lia).
+      assert (Fr' : Forall (range_ok (tree' ++ ext2) tree stk) (snd (build_walk rest tree' contents'))).
+      { eapply Forall_impl; [|exact Fr]. intros rn (s' & H1 & H2 & H3 & H4). exists s'. repeat split; try assumption.
+        intros i Hi Hlt. apply Hdead; [|exact Hlt]. apply H4; [exact Hi|lia]. }
+      destruct (match rest with d2 :: _ => d_start d2 =? d_start d | [] => false end) eqn:Same.
+      + split; [exact Ef|]. split; [exact Wf|]. split; [exact Fr'|exact Cm].
+      + cbn [fst snd]. split; [exact Ef|]. split; [exact Wf|].
+        destruct (split_sorted P d rest E) as [HP HR].
+        (* the group of position d_start d is complete *)
+        assert (HPle : forall x, In x (P ++ [d]) -> d_start x <= d_start d).
+        { intros x Hx. apply in_app_or in Hx. destruct Hx as [Hx|[<-|[]]]; [|lia].
+          specialize (HP x Hx). apply delta_le_spec in HP. lia. }
+        assert (HRgt : forall y, In y rest -> d_start d < d_start y).
+        { intros y Hy. destruct rest as [|d2 rest']; [destruct Hy|].
+          assert (d_start d <= d_start d2) by (specialize (HR d2 ltac:(left; reflexivity)); apply delta_le_spec in HR; lia).
+          assert (d_start d2 <> d_start d) by lia.
+          destruct Hy as [<-|Hy]; [lia|].
+          pose proof (sorted_start_sorted _ HDsort) as SS2. rewrite E in SS2.
+          assert (SS3 : start_sorted (d2 :: rest')).
+          { replace (P ++ d :: d2 :: rest') with ((P ++ [d]) ++ d2 :: rest') in SS2 by (rewrite <- app_assoc; reflexivity).
+            apply (SS_suffix' _ (P ++ [d])). exact SS2. }
+          apply StronglySorted_inv in SS3. destruct SS3 as [_ F3]. rewrite Forall_forall in F3. specialize (F3 y Hy). cbn in F3. lia. }
+        pose proof (emission (P ++ [d]) rest tree' contents' stk' Popped' (d_start d) E' I' HPle HRgt) as Pm.
+        assert (Hhead : range_ok (tree' ++ ext2) tree stk (d_start d, contents')).
+        { exists stk'. cbn [fst snd]. rewrite (pairs_of_app tree' ext2 stk' Hsb').
+          split; [apply is_chain_app; apply I'|]. split; [apply I'|]. split; [exact Pm|exact Hdead]. }
+        split; [constructor; [exact Hhead|exact Fr']|].
+        intros rs1 rn rs2 Ers rn' Hrn' s s' Hs Hs' i Hi Hle.
+        destruct rs1 as [|r0 rs1]; cbn in Ers; injection Ers as E0 Ers.
+        * subst rn rs2. cbn [snd] in *.
+          rewrite Forall_forall in Fr. destruct (Fr rn' Hrn') as (s'' & H1 & _ & _ & H4).
+          rewrite (is_chain_fun _ _ _ Hs' _ H1) in Hi.
+          rewrite (is_chain_fun _ _ _ Hs _ (is_chain_app tree' ext2 _ _ (inv_chain _ _ _ _ _ I'))).
+          apply H4; [exact Hi|lia].
+        * apply (Cm rs1 rn rs2 Ers rn' Hrn' s s' Hs Hs' i Hi Hle).
   Qed.
 End Build.
